@@ -576,7 +576,7 @@ func suiteCodec(args []string) {
 	r := rand.New(rand.NewSource(*seed))
 	cw := newCaseWriter(*dir)
 	rep := &Report{Suite: "codec", Seed: *seed, Distribution: map[string]int{}, Extra: map[string]interface{}{}}
-	rep.Rule = "a case is one model command (enc <value> | dec <type> <bytes> | rt <value> | stream <type> <bytes>); distinct = distinct command text; non-trivial = every case except decode inputs shorter than one 8-byte header"
+	rep.Rule = "a case is one model command (enc <value> | dec <type> <bytes> | rt <value> | stream <type> <bytes> | cdec / cstream on a scripted transport | udesc / uenc / udec <declarations of user-defined structure types> ...); distinct = distinct command text; non-trivial = every case except decode inputs shorter than one 8-byte header"
 	types := sortedTypeNames()
 	perKind := map[string]int{}
 	viol := func(kind string, m map[string]interface{}) {
@@ -693,6 +693,8 @@ func suiteCodec(args []string) {
 			rep.Distribution[fmt.Sprintf("rt-many:%dKiB", len(out)/1024)]++
 		}
 	}
+	// group 1c: user-defined structure types against the models run on their declarations (UserTypes.v)
+	userModelCases(cw, rep, r, 10+*n/10, viol)
 	// group 2: top-level shapes that are not messages (C13)
 	for _, txt := range []string{"N", "(i 5)", "(s 6162)", "(X typednil)", "(X int)", "(X map)", "(X slice)", "(X func)", "(X chan)", "(X float64)",
 		"(P (P (S GetRequest (s _) (e 0) (e 0) (e 0) (S KeyWrappingSpecification (e 0) (S EncryptionKeyInformation (s _) (S CryptoParams (e 0) (e 0) (e 0) (e 0) (e 0) (e 0) (b 0) (i 0) (i 0) (i 0) (i 0) (i 0) (i 0) (i 0) (e 0) (e 0) (y _) (i 0))) (S MACSignatureKeyInformation (s _) (S CryptoParams (e 0) (e 0) (e 0) (e 0) (e 0) (e 0) (b 0) (i 0) (i 0) (i 0) (i 0) (i 0) (i 0) (i 0) (e 0) (e 0) (y _) (i 0))) (L) (e 0)))))",
